@@ -728,6 +728,15 @@ func randomPolicy(r *core.Rand) policy {
 func (P) Generate(g0 *core.Gen) {
 	g := &collector{Gen: g0}
 	defer g.flush()
+	if os.Getenv("VERIF_C10_ONLY") == "conc" { // manual -race runs
+		for i := 0; i < 300; i++ {
+			r := g.R.Fork()
+			s := newSim(r, randomPolicy(r), int(r.Pick(1, 2)))
+			s.scenario(int(r.Pick(30, 60)), false)
+			g.Case("concurrent-exploration", len(s.defs) >= 3, strings.Replace(s.line(), "C10 run ", "C10 conc ", 1))
+		}
+		return
+	}
 	// thin slice: non-conflicting chains, no blocks beyond the base chain
 	for i := 0; i < g.N(40, 200); i++ {
 		r := g.R.Fork()
@@ -783,6 +792,16 @@ func (P) Generate(g0 *core.Gen) {
 		s := newSim(r, randomPolicy(r), int(r.Pick(1, 2, 2, 3)))
 		s.scenario(int(r.Pick(8, 15, 25, 40)), false)
 		g.Case("pool-only", len(s.defs) >= 3, s.line())
+	}
+	// exploration only (thorough tier): the same kind of history issued from 8 goroutines; invariants of
+	// the real state at quiescence
+	if g.Thorough() {
+		for i := 0; i < 300; i++ {
+			r := g.R.Fork()
+			s := newSim(r, randomPolicy(r), int(r.Pick(1, 2)))
+			s.scenario(int(r.Pick(30, 60)), false)
+			g.Case("concurrent-exploration", len(s.defs) >= 3, strings.Replace(s.line(), "C10 run ", "C10 conc ", 1))
+		}
 	}
 	for i := 0; i < g.N(400, 6000); i++ {
 		r := g.R.Fork()
